@@ -484,6 +484,87 @@ class ImagesRoundTrip(Contract):
             inputs["V1"], inputs["A"], inputs["V2"], inputs["A"], inputs["f1"], inputs["f3"])
 
 
+OPTIONAL_IMAGE_KEYS = ("format", "unified", "additional_variants")
+
+
+class ImageReaderValid(Contract):
+    """Image.deserialize(record) on a current-format record that is valid except for ONE corruption of field k (its value replaced by an
+    arbitrary JSON value, or the key deleted): a normal return means the key was present or optional, and the loaded image satisfies
+    every field rule (C07: nothing invalid is returned from a load)."""
+
+    def __init__(self, src, T, k, mode):
+        self.src, self.T, self.k, self.mode = src, T, k, mode
+        self.name = "productmd.images.Image.deserialize[%s %s]" % (k, "corrupted" if mode == "corrupt" else "deleted")
+        self.key = "de:images.Image:%s:%s" % (k, mode)
+
+    def setup(self, E):
+        from .sections import _sv_fields
+        m = E.instantiate(("images", "Images"))
+        im = E.instantiate(("images", "Image"), [m])
+        good = Obj(("images", "Image"), "good", 0)
+        f = _sv_fields(E, good, IMAGE_FIELDS, "rec")
+        E.assume(F.valid_image(self.T, good))                   # the uncorrupted record
+        E.assume(sym.is_str(f["format"]))
+        bad = SV(z3.Const("corrupt.%s" % self.k, sym.Val))
+        E.assume(concretise.json_value(bad))
+        rec = E.models.new_dict("record")
+        for a in IMAGE_FIELDS:
+            if a == self.k:
+                if self.mode == "corrupt":
+                    rec.entries.append(Entry(a, True, bad))
+                continue
+            rec.entries.append(Entry(a, True, f[a]))
+        return {"im": im, "rec": rec, "f": f, "bad": bad}
+
+    def call(self, E, st):
+        return E.call(E.getattr_(st["im"], "deserialize"), [st["rec"]])
+
+    def post(self, E, st, out):
+        if out.kind == "raise":
+            return {"returns_only_with_required_keys": True}
+        return {"returns_only_with_required_keys": self.mode == "corrupt" or self.k in OPTIONAL_IMAGE_KEYS,
+                "loaded_image_is_valid": F.valid_image(self.T, st["im"])}
+
+    def concretise(self, model, st):
+        inp = dict((a, concretise.value_of(model, v)) for a, v in st["f"].items())
+        if self.mode == "corrupt":
+            inp[self.k] = concretise.value_of(model, st["bad"])
+        else:
+            inp.pop(self.k, None)
+        return {"record": inp}
+
+    def sample_inputs(self, rng):
+        base = {"path": "a.iso", "mtime": 1, "size": 2, "volume_id": None, "type": "dvd", "format": "iso", "arch": "x86_64",
+                "disc_number": 1, "disc_count": 1, "checksums": {"sha256": "a" * 64}, "implant_md5": None, "bootable": False,
+                "subvariant": "S", "unified": False, "additional_variants": []}
+        if self.mode == "delete":
+            d = dict(base)
+            d.pop(self.k)
+            yield {"record": d}
+            return
+        for bad in (None, "", "x", 0, -1, 1.5, [], ["Client"], {}, True, "1", "zz" * 16):
+            yield {"record": dict(base, **{self.k: bad})}
+            yield {"record": dict(base, unified=True, **{self.k: bad})}
+
+    def native_eval(self, inputs):
+        mod = self.src.mods["images"]
+        m = mod.Images()
+        im = mod.Image(m)
+        nat = native_call(im.deserialize, copy.deepcopy(inputs["record"]))
+        if nat[0] == "raise":
+            return nat, {"returns_only_with_required_keys": True}
+        ok = True
+        try:
+            im.validate()
+        except Exception:
+            ok = False
+        return nat, {"returns_only_with_required_keys": self.k in inputs["record"] or self.k in OPTIONAL_IMAGE_KEYS,
+                     "loaded_image_is_valid": ok and bool(F.valid_image(self.T, im))}
+
+    def describe(self, inputs):
+        return "Image.deserialize(%s)" % concretise.py_repr(inputs["record"])
+
+
 def ast_only_writer(run, src, module, cls, attr, allowed):
     """AST clause: `add` is the only method of the class that stores into self.<attr> (C09 load.routes / C10 add.only_writer)"""
     with run.obligation("%s.%s#%s_written_only_by_%s" % (module, cls, attr, "_".join(allowed)), "ast",
@@ -514,4 +595,5 @@ def ast_only_writer(run, src, module, cls, attr, allowed):
 
 
 def contracts(src, T):
-    return [ImagesAdd(src, T, 0), ImagesAdd(src, T, 1), ImagesAdd(src, T, 2), IdentifyObjEqDict(src, T), Add11Refile(src, T), ImagesRoundTrip(src, T)]
+    return [ImagesAdd(src, T, 0), ImagesAdd(src, T, 1), ImagesAdd(src, T, 2), IdentifyObjEqDict(src, T), Add11Refile(src, T), ImagesRoundTrip(src, T)] + \
+        [ImageReaderValid(src, T, k, mode) for k in IMAGE_FIELDS for mode in ("corrupt", "delete")]
